@@ -223,6 +223,21 @@ META["C10"] = {
     "level_note": "same trusted base as C09",
 }
 
+META["C17"] = {
+    "budget": {"quick": 40, "thorough": 900},
+    "stall_s": 90,
+    "rule": "one run = generated schema + single-caller mutation history with fake-time gaps + a tracking configuration drawn per run (tracked subset, MaxRecords 1..12 (thorough ..40), TrackRejected, one of Called/Changed allow or block list, batch size 1..10) with the in-memory backend and one persistent backend (bbolt / badger / gorm+sqlite; all three in thorough runs) attached to the same machine, Sync() calls interleaved, then the full log, four state queries (Active / Inactive+HTime / Activated / Deactivated+HTime) and a Sync-visibility probe with the Sync-forked writer parked; 1 run in 6 is an Export/Import round trip instead; non-trivial = at least one record retained; distinct = distinct plans",
+    "components": {"real": MACHINE_REAL + ["pkg/history (tracer, in-memory backend, query matcher)", "pkg/history/bbolt + go.etcd.io/bbolt on a temp directory", "pkg/history/badger + badger on a temp directory", "pkg/history/gorm + sqlite on a temp directory"], "stub": []},
+    "assumptions": [
+        "the reference is an independent recording tracer plus a filter written from the field documentation: Active/Inactive = state after the transition, Activated/Deactivated = flipped by that transition, HTime window inclusive",
+        "at most one of the Called / Changed lists is set per run (their combination is not specified)",
+        "disk-level faults (torn or short writes, ENOSPC) and kill -9 copies are not injected",
+    ],
+    "probes": ["rotation"],
+    "level_text": "seeded search over histories and tracking configurations: exactly one record per matching transition in execution order with the machine's time after it, in-memory log bounded exactly by MaxRecords, persistent logs bounded with slack and equal to the reference on what they retain, Sync makes records queryable, queries return precisely the matching records newest first on every backend, Import(Export()) preserves ticks and activity and bumps the machine tick",
+    "level_note": "trusts testing/synctest (the databases run real inside the bubble on a scratch directory), the recording tracer",
+}
+
 NOT_YET = "check not built yet in this session (planned, see DESIGN.md section 5)"
 NOT_APPLICABLE = {
     "C19": "no schedule, clock, fault or multi-party behaviour: a static well-formedness scan of schema literals plus an exhaustive breadth-first enumeration of reachable active sets, i.e. bounded model checking, not deterministic simulation (DESIGN.md section 6)",
